@@ -261,6 +261,24 @@ def rule_conversion_factor_memo(ck, ix):
     sites = [s for s in find_memo_sites(fi) if "conversion_factor" in s.table]
     ck.floor("G-MEMO-KEY", len(sites), 1, "conversion_factor memo lookup")
     defs = defs_of(fi)
+    # every fill of the memo - `cache[k] = v`, `cache.setdefault(k, v)`, `cache.update(...)` - is the fill of the slot that
+    # was looked up; a second slot filled "for free" (e.g. the reciprocal under the reversed key) holds a value that a
+    # miss for that slot would not compute (1/f is not bit-identical to the factor computed from dst/src)
+    from . import shape as _shcf
+    cache_names = {nm for nm, ds in defs.defs.items() if any(v is not None and "conversion_factor" in norm(v) for v, k, st in ds)} | {"self._cache.conversion_factor"}
+    for s in sites:
+        lk0 = norm(_shcf.resolve(s.lookup_key, fi.node))
+        for c in walk_local(fi.node):
+            if isinstance(c, ast.Call) and isinstance(c.func, ast.Attribute) and c.func.attr in ("setdefault", "update", "__setitem__") and norm(c.func.value) in cache_names:
+                k0 = norm(_shcf.resolve(c.args[0], fi.node)) if c.args and c.func.attr != "update" else "?"
+                ck.check(k0 == lk0, "G-MEMO-FILL", "conversion_factor|only-the-looked-up-slot-is-filled", fi.loc(c), "the memo is filled only under the looked-up key",
+                         f"`{norm(c)}` fills the slot `{k0}` while `{lk0}` was looked up: the value stored there is not what a miss for that slot computes (history-dependent answers)")
+            if isinstance(c, ast.Assign):
+                for t_ in c.targets:
+                    if isinstance(t_, ast.Subscript) and norm(t_.value) in cache_names:
+                        k0 = norm(_shcf.resolve(t_.slice, fi.node))
+                        ck.check(k0 == lk0, "G-MEMO-FILL", "conversion_factor|only-the-looked-up-slot-is-filled", fi.loc(c), "the memo is filled only under the looked-up key",
+                                 f"`{norm(c)}` fills the slot `{k0}` while `{lk0}` was looked up: the value stored there is not what a miss for that slot computes (history-dependent answers)")
     for s in sites:
         lk = defs.inline(s.lookup_key)
         if isinstance(lk, ast.Call) and call_name(lk) in ("hash", "id", "str", "repr", "len"):
